@@ -555,6 +555,16 @@ pub fn validate_with(c: &Case, req: Request<Bytes>, prov: &mut Provider) -> ValO
                     'P' => reqs.add_prefix(name),
                     'a' => reqs.remove_always_present(name),
                     'i' => reqs.remove_if_in_request(name),
+                    'V' => {
+                        // the container is *used* in the middle of its history: a validation of this very request
+                        // (own provider, result discarded) — whatever a container remembers from being used must
+                        // not outlive the next modification
+                        if let Some(r2) = build_request(c) {
+                            let mut p2 = provider_for(vec![entry_of(c)]);
+                            let _ = block_on(sigv4_validate_request(r2, &c.region, &c.service, &mut p2, now, &reqs, opts));
+                        }
+                        let _ = reqs.clone();
+                    }
                     _ => reqs.remove_prefix(name),
                 }
             }
@@ -823,4 +833,70 @@ pub fn latin1(s: &[u8]) -> Vec<u8> {
 }
 pub fn trim(s: &[u8]) -> Vec<u8> {
     canonical::trim_ascii(s).to_vec()
+}
+
+/// Several validations in flight on one thread: each future is polled in turn (round robin) until all are done,
+/// so that every validation is suspended at its key provider while the others run. Outcome per case:
+/// `OK uri=<returned uri>` / `ERR <kind>` / `PANIC`; None if a request is not admitted by `http`.
+pub fn validate_interleaved(cases: &[Case]) -> Option<Vec<String>> {
+    let mut provs: Vec<Provider> = cases.iter().map(|c| provider_for(vec![entry_of(c)])).collect();
+    let reqsets: Vec<VecSignedHeaderRequirements> = cases
+        .iter()
+        .map(|c| {
+            let mut r = VecSignedHeaderRequirements::default();
+            for a in &c.always {
+                r.add_always_present(a);
+            }
+            for a in &c.ifreq {
+                r.add_if_in_request(a);
+            }
+            for a in &c.prefixes {
+                r.add_prefix(a);
+            }
+            r
+        })
+        .collect();
+    let mut requests = Vec::new();
+    for c in cases {
+        requests.push(build_request(c)?);
+    }
+    let r = catch_unwind(AssertUnwindSafe(|| {
+        let mut futs: Vec<Option<Pin<Box<dyn Future<Output = String> + '_>>>> = Vec::new();
+        for (((c, p), rs), req) in cases.iter().zip(provs.iter_mut()).zip(reqsets.iter()).zip(requests.into_iter()) {
+            let now = mk_time(c.now.0, c.now.1).expect("server time in chrono range");
+            let opts = SignatureOptions { s3: c.s3, url_encode_form: c.fold };
+            futs.push(Some(Box::pin(async move {
+                match sigv4_validate_request(req, &c.region, &c.service, p, now, rs, opts).await {
+                    Ok((parts, _body, _resp)) => format!("OK uri={}", parts.uri),
+                    Err(e) => match e.downcast::<SignatureError>() {
+                        Ok(se) => format!("ERR {}", kind_of(&se)),
+                        Err(_) => "ERR NotASignatureError".to_string(),
+                    },
+                }
+            })));
+        }
+        let waker = Waker::noop();
+        let mut cx = Context::from_waker(waker);
+        let mut out: Vec<Option<String>> = vec![None; futs.len()];
+        let mut rounds = 0u64;
+        while out.iter().any(|o| o.is_none()) {
+            rounds += 1;
+            if rounds > 100_000 {
+                panic!("interleaved validations never complete");
+            }
+            for (i, f) in futs.iter_mut().enumerate() {
+                if let Some(fut) = f {
+                    if let Poll::Ready(v) = fut.as_mut().poll(&mut cx) {
+                        out[i] = Some(v);
+                        *f = None;
+                    }
+                }
+            }
+        }
+        out.into_iter().map(|o| o.unwrap()).collect::<Vec<String>>()
+    }));
+    Some(match r {
+        Ok(v) => v,
+        Err(p) => vec![format!("PANIC {}", panic_msg(p).replace(' ', "_")); cases.len()],
+    })
 }
